@@ -5,6 +5,10 @@ HERE = os.path.dirname(os.path.dirname(os.path.abspath(__file__)))
 
 # id -> (technique, level text, level note, design section)
 CHECKS = {
+ "C01": ("deviation-bounded exhaustive enumeration of documents (grammar derivations x layout x value classes x IF_DATA modes), each run through load/write/load/write on the real code with a byte-fixpoint oracle",
+         "All carrier documents of the grammar with every optional slot (once, twice, pairs), every enum item, each also with CRLF; 7 whitespace and 7 comment shapes at every token gap of every carrier (all pairs on selected documents); every value class at every scalar parameter (integers per width/notation, 28 float notations, all strings over 17 escape units up to length k, identifier shapes); IF_DATA with/without A2ML and built-in spec. For each accepted input: reload succeeds, models equal, second write byte-identical (third cycle classifies drift). Exhaustive for <= 1 deviation per document (2 on selected documents).",
+         "inputs the loader rejects are outside the quantifier; API-built models are covered by the builder sweep only for the kinds listed in the evidence; unbounded string content is represented by the escape-unit alphabet",
+         "DESIGN.md 5/C01"),
  "C04": ("deviation-bounded exhaustive enumeration of grammar derivations (every tag x parameter x slot x enum item x block form x 6 versions) against a reference interpreter over the frozen grammar, plus field-by-field match of the loaded model",
          "Every element kind, parameter position, optional slot (once and twice), enum item and pair of slots of the frozen A2L 1.7.1 grammar, under all six ASAP2 versions, and every single deviation of the element under test (parameter deleted / wrong lexical class, extra token, block form flipped, wrong end tag, unknown block, required element missing): strict and non-strict load of the real parser compared with an independent table-driven recogniser and with the values the document holds (read back through Debug of the model). Exhaustive for 0/1 (thorough: 2) deviations from the carrier document of each element.",
          "the frozen grammar is the reference (its equality with the repository DSL is reported); documents with more than two simultaneous deviations are not explored; string/number value classes are covered by C01/C02",
